@@ -12,6 +12,7 @@ import (
 	"runtime/debug"
 	"sort"
 	"strings"
+	"sync/atomic"
 
 	"github.com/jmeaster30/vore/libvore"
 	"github.com/jmeaster30/vore/libvore/engine"
@@ -66,19 +67,27 @@ func CompileSafe(src string) (v *libvore.Vore, err error, p *PanicInfo) {
 type RunResult struct {
 	Matches    engine.Matches
 	Panic      *PanicInfo
-	OverBudget bool  // VM step limit hit (verif hook)
+	OverBudget bool  // VM step limit hit (verif hook), or the run was ended by the watchdog
+	Aborted    bool  // OverBudget because the watchdog ended the run (wall time / memory), not the step limit
 	Steps      int64 // VM instructions executed (verif hook; 0 without)
 }
 
 // RunSafe runs v on text with an optional VM step limit (0 = none).
+// runActive is true while RunSafe / RunFilesSafe are inside the VM: the watchdog
+// aborts only such runs (a stale abort flag is cleared by the next setStepLimit).
+var runActive atomic.Bool
+
 func RunSafe(v *libvore.Vore, text string, limit int64) (res RunResult) {
 	setStepLimit(limit)
+	runActive.Store(true)
 	defer func() {
+		runActive.Store(false)
 		res.Steps = vmSteps()
 		setStepLimit(0)
 		if r := recover(); r != nil {
 			if isBudgetPanic(r) {
 				res.OverBudget = true
+				res.Aborted = limit == 0 || res.Steps <= limit
 				return
 			}
 			res.Panic = capturePanic(r)
@@ -91,12 +100,15 @@ func RunSafe(v *libvore.Vore, text string, limit int64) (res RunResult) {
 // RunFilesSafe runs v on files.
 func RunFilesSafe(v *libvore.Vore, files []string, mode engine.ReplaceMode, limit int64) (res RunResult) {
 	setStepLimit(limit)
+	runActive.Store(true)
 	defer func() {
+		runActive.Store(false)
 		res.Steps = vmSteps()
 		setStepLimit(0)
 		if r := recover(); r != nil {
 			if isBudgetPanic(r) {
 				res.OverBudget = true
+				res.Aborted = limit == 0 || res.Steps <= limit
 				return
 			}
 			res.Panic = capturePanic(r)
@@ -237,18 +249,18 @@ func fmtSpans(s []Span, vars bool) string {
 
 // MatchRec is a fully comparable, JSON-friendly copy of an engine.Match.
 type MatchRec struct {
-	Filename    string  `json:"filename"`
-	MatchNumber int     `json:"matchNumber"`
-	Start       int     `json:"start"`
-	End         int     `json:"end"`
-	LineStart   int     `json:"lineStart"`
-	LineEnd     int     `json:"lineEnd"`
-	ColStart    int     `json:"colStart"`
-	ColEnd      int     `json:"colEnd"`
-	Value       string  `json:"value"`
-	HasRepl     bool    `json:"hasRepl"`
-	Repl        string  `json:"repl"`
-	Vars        any     `json:"vars"`
+	Filename    string `json:"filename"`
+	MatchNumber int    `json:"matchNumber"`
+	Start       int    `json:"start"`
+	End         int    `json:"end"`
+	LineStart   int    `json:"lineStart"`
+	LineEnd     int    `json:"lineEnd"`
+	ColStart    int    `json:"colStart"`
+	ColEnd      int    `json:"colEnd"`
+	Value       string `json:"value"`
+	HasRepl     bool   `json:"hasRepl"`
+	Repl        string `json:"repl"`
+	Vars        any    `json:"vars"`
 }
 
 func RecOf(m engine.Match) MatchRec {
